@@ -19,7 +19,7 @@ EXPLANATION = (
     "passed through unchanged. Does NOT decide RFC 3339 / nanosecond fidelity of timestamps (jiff), string escaping and number "
     "handling (serde_json), or null-vs-absent — most of the statement; the claim is limited to table agreement and wrapper transparency.")
 ASSUMPTIONS = ["rustc type checking / MIR construction are correct", "serde_json and jiff implement JSON / RFC 3339 faithfully", "serde's derive-free visitor protocol (next_key/next_value) behaves as documented"]
-FLOORS = {"R14.1": 1, "R14.2": 2, "R14.3": 1, "R14.4": 6, "R14.5": 1}
+FLOORS = {"R14.1": 1, "R14.2": 2, "R14.3": 1, "R14.4": 6, "R14.5": 1, "R14.6": 1}
 
 def strip_refs(t):
     while isinstance(t, tuple) and t and t[0] in ("ref", "deref"):
@@ -195,6 +195,28 @@ def run(ctx):
     ctx.add("R14.1", "C14/writer-table", not pw and wt is not None and len(wt) == len(fields),
             "; ".join(pw) if pw else (f"writer emits {len(wt or {})} members for {len(fields)} fields" if wt is not None and len(wt) != len(fields) else ""),
             site_of(fw) if fw else None, {"table": wt})
+    # R14.6: the member-count hint given to serialize_struct. serde_json writes "{}" at once when the hint is 0 and "{"
+    # otherwise, so the hint must be non-zero whenever a member is written: a constant >= 1, or a value computed from EVERY field.
+    p6 = []
+    if fw is not None:
+        og6 = Origins(fw)
+        ss = og6.call_sites(lambda ce: ce["path"].endswith("Serializer::serialize_struct"))
+        if len(ss) != 1:
+            p6.append(f"{len(ss)} serialize_struct calls")
+        for bi, t in ss:
+            o = og6.operand(t["args"][2], 0)
+            if isinstance(o, tuple) and o and o[0] == "int":
+                if o[1] < 1:
+                    p6.append("constant member count 0: serde_json would close the object before the members")
+            else:
+                import re as _re
+                deps = set(int(x) for x in _re.findall(r"\('field', \('deref', \('arg', 1, 'self'\)\), (\d+)\)", repr(o)))
+                missing = [fields[i] for i in range(len(fields)) if i not in deps]
+                if missing:
+                    p6.append(f"the member count passed to serialize_struct is computed without looking at {missing}: when only those are present it is 0 and serde_json emits `{{}}` before the members")
+    else:
+        p6.append("anchor missing")
+    ctx.add("R14.6", "C14/struct-length-hint", not p6, "; ".join(p6), site_of(fw) if fw else None)
     n2v, rd, vm, pr = reader_tables(ctx)
     ctx.add("R14.2", "C14/reader-name-table", not [p for p in pr if "visit_bytes" in p or "name" in p or "visit_str" in p or "anchor" in p],
             "; ".join(p for p in pr if "visit_bytes" in p or "name" in p or "visit_str" in p or "anchor" in p), None, {"table": n2v})
